@@ -89,7 +89,9 @@ int main(int argc, char **argv)
 	if (argc < 4) return 2;
 	impl = argv[3];
 	for (int i = 4; i < argc; i++) {
-		if (!strcmp(argv[i], "--kf-skip")) kf_skip = 1;
+		if (!strcmp(argv[i], "--kf-skip")) kf_skip = 3;           /* both trigger families below */
+		if (!strcmp(argv[i], "--kf-skip-ghost")) kf_skip |= 1;    /* operations on / next to an entry removed under a parked iterator */
+		if (!strcmp(argv[i], "--kf-skip-split")) kf_skip |= 2;    /* trie: a put that may split the node an iterator is parked on */
 		if (!strcmp(argv[i], "--seed") && i + 1 < argc) lcg = strtoul(argv[++i], NULL, 10) * 2654435761UL + 1;
 	}
 	strcpy(keys[1], "a"); strcpy(keys[2], "ab"); strcpy(keys[3], "abc"); strcpy(keys[4], "abd");
@@ -111,14 +113,14 @@ int main(int argc, char **argv)
 		const char *op = L.tok[0];
 		long long a1 = vt_argi(&L, 1), a2 = vt_argi(&L, 2), a3 = vt_argi(&L, 3), a4 = vt_argi(&L, 4), a5 = vt_argi(&L, 5);
 		ncalls = 0;
-		int g = kf_skip && ghosty && any_ghost();
+		int g = (kf_skip & 1) && ghosty && any_ghost();
 		if (!strcmp(op, "Reset")) {
 			/* abandon the old map (leak-checking is off) so a damaged map cannot poison the next history */
 			fresh();
 			vt_ev("Reset"); vt_res(); end_ev();
 		} else if (!strcmp(op, "Put")) {
 			if (g && ghost[a1]) continue;
-			if (kf_skip && !strcmp(impl, "trie") && qb_map_get(m, keys[a1]) == NULL) {
+			if ((kf_skip & 2) && !strcmp(impl, "trie") && qb_map_get(m, keys[a1]) == NULL) {
 				/* recorded finding: inserting a key that may split the node an iterator is parked on */
 				int sk = 0;
 				for (int i = 1; i <= MAXIT; i++) if (its[i] && park[i] && keys[park[i]][0] == keys[a1][0]) sk = 1;
@@ -142,7 +144,7 @@ int main(int argc, char **argv)
 		} else if (!strcmp(op, "Rm")) {
 			if (g && ghost[a1]) continue;
 			/* recorded finding (skiplist): a removal while a removed entry is still held by an iterator */
-			if (kf_skip && !ghosty && any_ghost()) continue;
+			if ((kf_skip & 1) && !ghosty && any_ghost()) continue;
 			int rc = qb_map_rm(m, keys[a1]);
 			if (rc) for (int i = 1; i <= MAXIT; i++) if (its[i] && park[i] == a1) ghost[a1] = 1;
 
